@@ -337,6 +337,10 @@ def run_api(loader, strategies, pairs, cfg, workdir):
     paired_end = cfg['mates'] == 2
     handle = FastqHandle(f'{target_dir}/demultiplexed', paired_end, single_cell=cfg['percell'], maxHandles=cfg.get('fh', 500))
     reject_handle = FastqHandle(f'{target_dir}/rejects', paired_end) if cfg['hasRej'] else None
+    if cfg['percell'] and cfg.get('prune'):
+        # tuning parameter of the real HandleLimiter (default: prune check every 10000 writes) lowered so that small
+        # libraries reach the close-least-recently-written / reopen-in-append-mode path
+        handle.handles.pruneEvery = cfg['prune']
     log_location = os.path.abspath(f'{target_dir}/demultiplexing.log')
     log_handle = open(log_location, 'w')
     log_handle.write('driver\n')
@@ -412,7 +416,7 @@ def run_cli(names, pairs, cfg, workdir):
 
 def run_event(tid, grp, entry, names, pairs, acc, cfg, obs, extra=None):
     e = {'ev': 'run', 'tid': tid, 'grp': grp, 'entry': entry, 'mates': cfg['mates'], 'hasRej': cfg['hasRej'],
-         'percell': cfg['percell'], 'maxpairs': cfg['maxpairs'], 'gz': bool(cfg.get('gz', True)), 'fh': int(cfg.get('fh', 500)),
+         'percell': cfg['percell'], 'maxpairs': cfg['maxpairs'], 'gz': bool(cfg.get('gz', True)), 'fh': int(cfg.get('fh', 500)), 'prune': int(cfg.get('prune') or 0),
          'strategies': names, 'lib': cfg['lib'], 'N': len(pairs),
          'classes': [[p['hdr'], p['content']] for p in pairs],
          'inp': [{'id': p['id'], 'h': [r['h'] for r in p['m']], 'm': [{'seq': r['seq'], 'qual': r['qual']} for r in p['m']]}
@@ -456,11 +460,12 @@ def configs(rng, lib, mates, n, full):
     base = {'lib': lib, 'mates': mates, 'gz': rng.random() < 0.7}
     out = [dict(base, hasRej=True, percell=False, maxpairs=0),
            dict(base, hasRej=False, percell=False, maxpairs=0)]
-    out.append(dict(base, hasRej=rng.random() < 0.7, percell=True, maxpairs=0, fh=rng.choice([1, 2, 500])))
+    out.append(dict(base, hasRej=rng.random() < 0.7, percell=True, maxpairs=0, fh=rng.choice([1, 2, 500]),
+                    prune=rng.choice([0, 3, 7])))
     out.append(dict(base, hasRej=True, percell=False, maxpairs=rng.randint(1, n + 1)))
     if full:
         out.append(dict(base, hasRej=False, percell=True, maxpairs=rng.randint(1, n)))
-        out.append(dict(base, hasRej=True, percell=True, maxpairs=n))
+        out.append(dict(base, hasRej=True, percell=True, maxpairs=n, fh=rng.choice([1, 3]), prune=rng.choice([1, 2, 5, 11])))
     return out
 
 
@@ -615,7 +620,8 @@ def replay(rec, case_path, workdir):
     pairs = [{'id': p['id'], 'hdr': c[0], 'content': c[1],
               'm': [{'h': h, 'seq': m['seq'], 'plus': '+', 'qual': m['qual']} for h, m in zip(p['h'], p['m'])]}
              for p, c in zip(ev['inp'], ev['classes'])]
-    cfgs = [{'lib': e['lib'], 'mates': e['mates'], 'gz': e.get('gz', True), 'fh': e.get('fh', 500), 'hasRej': e['hasRej'],
+    cfgs = [{'lib': e['lib'], 'mates': e['mates'], 'gz': e.get('gz', True), 'fh': e.get('fh', 500), 'prune': e.get('prune', 0),
+             'hasRej': e['hasRej'],
              'percell': e['percell'], 'maxpairs': e['maxpairs']} for e in evs]
     rec.group(loader, ev['strategies'], pairs, cfgs, workdir, entry=ev.get('entry', 'api'),
               extra={'scn': ev['scn']} if 'scn' in ev else None)
